@@ -559,13 +559,20 @@ mod huffman {
             let mut prev_level = 0;
             let mut encode = BTreeMap::new();
             let mut decode = Decode::map();
+            let lone = levels.len() == 1;
             for (level, sym) in levels {
+                // A lone symbol sits at the root of the tree; it still needs one bit per occurrence.
+                let level = if lone { 1 } else { level };
                 if prev_level != level {
                     code <<= level - prev_level;
                     prev_level = level;
                 }
                 encode.insert(sym.clone(), (level, code));
                 Self::insert_decode(&mut decode, sym, level, code << (64 - level));
+                if lone {
+                    // The code `1` is unused; map it to the symbol as well to keep the table total.
+                    Self::insert_decode(&mut decode, sym, level, 1 << 63);
+                }
 
                 code += 1;
             }
